@@ -622,6 +622,10 @@ func TestC19(t *testing.T) {
 		tier = "quick"
 	}
 	learnWords()
+	if os.Getenv("VERIF_C19_RACE") != "" {
+		raceScenario(t, tier == "quick")
+		os.Exit(0)
+	}
 	if rp := os.Getenv("VERIF_REPLAY"); rp != "" {
 		os.Exit(replay(t, rp))
 	}
@@ -640,6 +644,12 @@ func TestC19(t *testing.T) {
 	var mu sync.Mutex
 	var stats []stat
 	var wg sync.WaitGroup
+	type divergence struct {
+		g       genCfg
+		choices []int
+		a, b    string
+	}
+	var diverged []divergence
 	// few configurations run at a time, each with its level-1 subtrees spread
 	// over several goroutines
 	perCfgWorkers := 4
@@ -653,7 +663,12 @@ func TestC19(t *testing.T) {
 			defer func() { <-sem }()
 			bound := boundFor(g, quick)
 			ex := &xplore.Explorer{Bound: bound, Horizon: 5 * readHorizon, Replay: 2, MaxExecs: 250000, OnDiverge: func(ch []int, a, b string) {
-				r.InternalError(fmt.Sprintf("nondeterministic replay %s %v: %q vs %q", g, ch, a, b))
+				// decided after the exploration, when nothing else runs (see below)
+				mu.Lock()
+				if len(diverged) < 50 {
+					diverged = append(diverged, divergence{g, append([]int{}, ch...), a, b})
+				}
+				mu.Unlock()
 			}}
 			outcomes := map[string]bool{}
 			ex.ExploreParallel(perCfgWorkers, func(x *xplore.Ctx) string {
@@ -708,6 +723,48 @@ func TestC19(t *testing.T) {
 		}()
 	}
 	wg.Wait()
+	// The executions above run side by side (independent stores and random
+	// sources). One choice sequence giving two outcomes is either the harness's
+	// fault or the generators': replayed three times with nothing else running,
+	// a sequence that is deterministic alone was disturbed by the OTHER calls
+	// in flight -- generator calls that share no argument influence each other.
+	for _, d := range diverged {
+		var outs []string
+		for k := 0; k < 3; k++ {
+			var sig string
+			xplore.RunOne(d.choices, nil, 5*readHorizon, func(x *xplore.Ctx) string {
+				t.Run("alone", func(st *testing.T) {
+					defer func() { recover() }()
+					sig, _ = runGen(st, d.g, x)
+				})
+				return ""
+			})
+			outs = append(outs, sig)
+		}
+		if outs[0] == outs[1] && outs[1] == outs[2] {
+			r.Violate("outcome-depends-on-other-calls "+d.g.Gen, fmt.Sprintf("%s choices=%v: run side by side with other, unrelated generator calls the same random-source answers gave %q and %q; run alone three times they give %q every time (state shared between calls)", d.g, d.choices, d.a, d.b, outs[0]), nil)
+		} else {
+			r.InternalError(fmt.Sprintf("nondeterministic replay %s %v: %q vs %q (alone: %q)", d.g, d.choices, d.a, d.b, outs))
+		}
+	}
+	// auxiliary evidence: the free-running -race pass over concurrent generator
+	// calls (run.sh runs it first, from a separate -race build)
+	if b, err := os.ReadFile(os.Getenv("VERIF_RACE_LOG")); err == nil {
+		reports := strings.Count(string(b), "WARNING: DATA RACE") + strings.Count(string(b), "fatal error: concurrent map")
+		r.Set("aux_race_pass", map[string]any{"reports": reports, "log_bytes": len(b)})
+		if reports > 0 {
+			var fr []string
+			for _, l := range strings.Split(string(b), "\n") {
+				l = strings.TrimSpace(l)
+				if strings.HasPrefix(l, "github.com/ipfs/go-unixfsnode") && len(fr) < 4 {
+					fr = append(fr, strings.TrimPrefix(l, "github.com/ipfs/go-unixfsnode/"))
+				}
+			}
+			r.Violate("race-detector-report", fmt.Sprintf("generator calls that share no argument, run on separate goroutines: the -race pass printed %d report(s): %s", reports, strings.Join(fr, " ; ")), nil)
+		}
+	} else {
+		r.Set("aux_race_pass", "not run")
+	}
 	// every drawable name once: each word of the list (and each extension) as
 	// the first name drawn, all other answers default
 	sweep := 0
@@ -748,6 +805,40 @@ func TestC19(t *testing.T) {
 	r.Set("per_generator", stats)
 	r.Set("word_list_length", wordPeriod)
 	os.Exit(r.Finish())
+}
+
+// raceScenario: the free-running pass (built with -race): every generator
+// configuration called from 6 goroutines at once, each call with its own store
+// and its own scripted random source (default answers). The calls share no
+// argument; whatever the race detector reports is state shared inside the
+// generators.
+func raceScenario(t *testing.T, quick bool) {
+	cfgs := configs(true)
+	rounds := 3
+	if !quick {
+		rounds = 12
+	}
+	for round := 0; round < rounds; round++ {
+		var wg sync.WaitGroup
+		for w := 0; w < 6; w++ {
+			w := w
+			wg.Add(1)
+			go func() {
+				defer wg.Done()
+				for i := range cfgs {
+					g := cfgs[(i+w*7)%len(cfgs)]
+					xplore.RunOne(nil, nil, 5*readHorizon, func(x *xplore.Ctx) string {
+						t.Run("race", func(st *testing.T) {
+							defer func() { recover() }()
+							runGen(st, g, x)
+						})
+						return ""
+					})
+				}
+			}()
+		}
+		wg.Wait()
+	}
 }
 
 func replay(t *testing.T, path string) int {
